@@ -49,7 +49,7 @@ InDts(ev, pre) ==
   UNION { LET v == pre[ev.in[i]] IN
           IF IsArray(v) \/ IsVector(v) THEN DtOfArray(v)
           ELSE IF IsScalar(v) \/ IsDense(v) THEN {v.dt} ELSE {} : i \in 1..Len(ev.in) }
-RealValuedOps == {"norm", "abs", "allclose", "isfinite", "all", "any"}
+RealValuedOps == {"norm", "norm_sq", "abs", "allclose", "isfinite", "all", "any"}
 DtypeFails(ev, pre) ==
   IF ev.outcome = "raise" \/ ev.op = "init" \/ ev.in = <<>> THEN {}
   ELSE LET dts == InDts(ev, pre)
